@@ -335,6 +335,7 @@ def run(ctx):
     quotaprobes.callback_leg(ctx, runner, "memory")
     quotaprobes.result_size_leg(ctx, runner)
     quotaprobes.load_leg(ctx, runner)
+    quotaprobes.vararg_leg(ctx, runner)
 
 
 def replay(ctx, path):
